@@ -190,7 +190,14 @@ Definition set_glyph_flags (b : zbuf) (m : N) (s : option nat) (e : option nat)
            (interior from_out : bool) : result zbuf :=
   let s := match s with Some x => x | None => O end in
   let e := Nat.min (match e with Some x => x | None => blen b end) (blen b) in
-  if (e <? s)%nat then Error Overflow   (* `end - start` underflows; callers never do this *)
+  (* `end - start` is evaluated only when interior && !from_out_buffer (it underflows for end < start);
+     with from_out_buffer in output mode `start` indexes the out-buffer and `end` the input, so
+     start > end is routine there (after 1->k growth).  Other end < start combinations are outside
+     the callers' domain. *)
+  if ((e <? s)%nat && interior && negb from_out)%bool then Error Overflow
+  else if ((e <? s)%nat && negb interior && negb from_out)%bool
+       then Ok (with_scratch b (N.lor (scratch b) SCRATCH_HAS_GLYPH_FLAGS))
+  else if ((e <? s)%nat && negb (out_mode b))%bool then Error Oob
   else if (interior && negb from_out && (e - s <? 2)%nat)%bool then Ok b
   else
     let b := with_scratch b (N.lor (scratch b) SCRATCH_HAS_GLYPH_FLAGS) in
@@ -376,11 +383,11 @@ Definition move_to (b : zbuf) (i : nat) : result (bool * zbuf) :=
       else Ok (true, with_pr b (pre b ++ firstn count (rest b)) (skipn count (rest b)) (dead b + count))
     else if (i <? ol)%nat then
       let count := (ol - i)%nat in
-      (* shift_forward(count - idx) when idx < count: ensure(len + count - idx) may fail, then the
-         following assert!(idx >= count) panics *)
+      (* shift_forward(count - idx) when idx < count: ensure(len + count - idx) may fail; move_to
+         then returns false (before fix 9debd70 the following assert!(idx >= count) panicked) *)
       if (dead b <? count)%nat then
         let '(okk, b') := ensure b (blen b + (count - dead b)) in
-        if negb okk then Error AssertFail
+        if negb okk then Ok (false, b')
         else Ok (true, with_pr b (firstn i (pre b)) (skipn i (pre b) ++ rest b) O)
       else Ok (true, with_pr b (firstn i (pre b)) (skipn i (pre b) ++ rest b) (dead b - count))
     else Ok (true, b).
